@@ -168,12 +168,10 @@ impl Tuple {
 //@ sub /&self\.data\.effective_data\(\)\[(\w+)\.\.\]/ => tail(self.data.effective_data(), \1)
 //@ sub /buffer\[([^\]]*?)\.\.([^\]]*?)\]\.copy_from_slice\((\w+)\)/ => copy_into(buffer, \1, \2, \3)
 //@ use-lemmas header_is_prefix
-//@ requires
-//@   old(self).newest_version() < 255,
 //@ ensures
 //@   [C03,C04,C18:update.newest_version_created_by_writer] r is Ok && !modified.empty() ==> final(self).newest_creator() == new_xmin,
 //@   [C03,C04,C18:update.newest_creator_is_writer_or_previous_creator] r is Ok && !modified.empty() ==> (final(self).newest_creator() == new_xmin || final(self).newest_creator() == old(self).newest_creator()),
-//@   [C18:update.version_number_incremented] r is Ok && !modified.empty() ==> final(self).newest_version() == old(self).newest_version() + 1,
+//@   [C18,C16:update.version_label_incremented_modulo_256] r is Ok && !modified.empty() ==> final(self).newest_version() == (if old(self).newest_version() == 255 { 0u8 } else { (old(self).newest_version() + 1) as u8 }),
 //@   [C18:update.clears_no_delete_mark_of_others] r is Ok && !modified.empty() ==> final(self).delete_mark() is None,
 //@   [C18:update.noop_on_empty_change_set] modified.empty() ==> r is Ok && final(self).image() == old(self).image(),
 //@   [C03:update.failure_changes_nothing] r is Err ==> final(self).image() == old(self).image(),
